@@ -77,6 +77,12 @@ def plan(gene, case):
 
 
 def run_case(case):
+    if case.get("kind") == "shipped":
+        return run_shipped(case)
+    return _run_generated(case)
+
+
+def _run_generated(case):
     from aldy.gene import Gene
     from aldy.genotype import genotype
     from aldy.common import AldyException
@@ -84,7 +90,12 @@ def run_case(case):
 
     d = scratch()
     db = os.path.join(d, "ga.yml")
-    meta = gen_db.write(case["db"], db)
+    if case.get("kind") == "shipped":
+        import shutil
+
+        shutil.copyfile(_shipped_db(case["gene"]), db)
+    else:
+        gen_db.write(case["db"], db)
     build = case["build"]
     gene = Gene(db, genome=build)
     copies = plan(gene, case)
@@ -103,6 +114,8 @@ def run_case(case):
     allv = set(planted_vars)
     labels = [f"strand:{gene.strand:+d}", f"copies:{len(struct)}", f"pseudo:{len(gene.regions) - 1}",
               "gaps" if case["db"]["builds"][build].get("gap") else "nogaps", f"rl:{rl}"]
+    if case.get("kind") == "shipped":
+        labels.append("shipped:" + case["gene"])
     labels += [f"var:{k}" for k in kinds_of(allv)]
     from aldy.gene import CNConfigType
     skinds = set()
@@ -269,8 +282,32 @@ def case_strategy(db_kwargs=None):
 
 
 def strategy(tier):
-    return case_strategy()
+    shipped = st.fixed_dictionaries({
+        "kind": st.just("shipped"), "gene": st.sampled_from(SHIPPED_QUICK if tier == "quick" else SHIPPED_SMALL), "build": st.sampled_from(["hg19", "hg38"]),
+        "hap": st.lists(st.tuples(st.integers(0, 5), st.integers(0, 400)).map(list), min_size=2, max_size=2),
+        "extra": st.lists(st.integers(0, 400), min_size=0, max_size=1),
+        "rl": st.sampled_from([100, 150, 250]), "depth": st.sampled_from([20, 25]), "sim_seed": st.integers(0, 10 ** 6)})
+    n = 16 if tier == "quick" else 6
+    gen = case_strategy()
+    return st.integers(0, n - 1).flatmap(lambda k: shipped if k == 0 else gen)
 
 
 def budget(tier):
     return {"examples": 1024 if tier == "quick" else 16000, "shards": 16}
+
+
+# ------------------------------------------------------------------ shipped small genes on their real coordinates
+SHIPPED_QUICK = ["nat2", "comt", "vkorc1", "ifnl3", "cyp2w1", "nudt15", "cyp2r1"]
+SHIPPED_SMALL = ["cyp2w1", "cyp2r1", "cyp4f2", "nat2", "comt", "vkorc1", "ifnl3", "cyp2a6", "nudt15", "cyp2c19", "tpmt", "cyp2d6"]
+_shipped = {}
+
+
+def _shipped_db(name):
+    from aldy.common import script_path
+
+    return script_path(f"aldy.resources.genes/{name}.yml")
+
+
+def run_shipped(case):
+    """Same oracle as the generated part, database = a shipped gene at its real coordinates (lazy contig)."""
+    return _run_generated(dict(case, db={"builds": {"hg19": {"gap": None}, "hg38": {"gap": None}}}))
